@@ -162,6 +162,15 @@ def run(ctx):
         fcfg = fw.write_cfg(ctx.path("MC_FloatParseAlg_b%d_%d.cfg" % (b, imax)), invariants=["ParseOK"],
                             constants={"B": b, "IMax": imax, "MaxInt": 2, "MaxFrac": 3})
         ctx.mc("mc-floatparse-b%d-i%d" % (b, imax), "C08", "FloatParseAlg.tla", fcfg, workers=4)
+    # beyond the statement: the width the formatter computes against the characters it writes (Display and the scientific forms)
+    lcfg = fw.write_cfg(ctx.path("MC_FloatFmtAlg.cfg"), invariants=["PlainOK", "SciOK"],
+                        constants={"MaxL": ctx.pick(6, 9), "MaxExp": ctx.pick(8, 12), "MaxPrec": ctx.pick(9, 13), "FixPoint": "TRUE"})
+    ctx.mc("mc-floatfmt", "C08", "FloatFmtAlg.tla", lcfg, workers=2)
+    lcfg0 = fw.write_cfg(ctx.path("MC_FloatFmtAlg_pinned.cfg"), invariants=["PlainOK"],
+                         constants={"MaxL": 3, "MaxExp": 2, "MaxPrec": 2, "FixPoint": "FALSE"})
+    r0 = ctx.mc("mc-floatfmt-pinned", "C08", "FloatFmtAlg.tla", lcfg0, workers=1, expect_ok=False)
+    if "PlainOK" not in r0.invariant_violated:
+        raise fw.ToolError("FloatFmtAlg no longer refutes the width computation of the pinned code")
     # vacuity: every branch is taken (coverage run without the definition: TLC's -coverage start-up does not
     # terminate on the BigNat-heavy invariant)
     c2 = fw.write_cfg(ctx.path("MC_ConvertBaseCover.cfg"), invariants=["OneBranch"], constants=dict(scope, MaxSig=5))
@@ -201,7 +210,8 @@ def run(ctx):
                     "round trips in every format with exponents -400..400, precision printing 0..6 digits x 6 modes, "
                     "conversions over base pairs x exponents on both sides of 38/39 x precisions, IEEE bit patterns. "
                     "TRACE: seeded random driver. Every event is evaluated on exact rationals over BigNat. Debug "
-                    "formatting and width/fill of floats are not part of the statement and not checked; literals with "
+                    "formatting is not checked; width / fill / alignment of floats are not part of the statement: they are modelled "
+                    "(FloatFmtAlg) and compared with core::fmt's layout of the unpadded text, reported as BEYOND-PROPERTY, never as a violation; literals with "
                     "exponents of more than 9 digits are outside the monitor's grammar (no verdict).",
         required_cover=REQUIRED)
     stale = fw.stale_findings_check(ctx, WITNESSES)
